@@ -85,6 +85,21 @@ fn drive_tpl(vectors: Option<&str>, corpus: &str, rng: &mut Rng, thorough: bool,
       }
     }
   }
+  // long lines: the site sits around and beyond the look-behind limit of the indentation arithmetic, behind a run of
+  // spaces; rewriting g(..) to itself
+  for lead in [0usize, 4] {
+    for gap in [1usize, 4] {
+      for pad in (470..=540).step_by(if thorough { 1 } else { 2 }) {
+        let ind = " ".repeat(lead);
+        let src = format!("{ind}const t = [0,{}\"{}\", g({{\n{ind}    a: 1,\n{ind}    b: 2\n{ind}}})];\n", " ".repeat(gap), "x".repeat(pad));
+        let site = src.find("g(").unwrap();
+        if let Some(r) = tpl_record(&format!("c07long-{lead}-{gap}-{pad}"), SupportLang::JavaScript, &src, "g($A)", "g($A)", Some(site)) {
+          w.put(&r);
+          nv += 1;
+        }
+      }
+    }
+  }
   // corpus: a multi-line named node N inside a site S; pattern = S with N abstracted
   let per_file = if thorough { 12 } else { 6 };
   for (l, path, text) in util::corpus(corpus) {
